@@ -3,7 +3,7 @@
    references (timeout structure + acknowledgement table).  Every state. *)
 From Coq Require Import String ZifyN ZifyBool ZifyNat.
 From Slock Require Import Engine.Types Engine.Queues Engine.Timers Engine.Engine Engine.Engine2.
-From Slock Require Import scratch.ack.AckProofsBase scratch.ack.AckProofsAck scratch.ack.AckProofsWait.
+From Slock Require Import Engine.AckProofsBase Engine.AckProofsAck Engine.AckProofsWait.
 Open Scope N_scope.
 
 (* ------------------------------------------------------------------ tracking one record through the helpers *)
